@@ -265,8 +265,8 @@ pub fn ports_scenario(ch: &mut Chooser, thorough: bool, reset_mode: bool) -> Exe
             ("tcp listen :0".into(), Some(Cmd::TcpListen(0))),
             ("tcp listen :49153".into(), Some(Cmd::TcpListen(LO + 1))),
             ("tcp connect peer:80".into(), Some(Cmd::TcpConnect)),
-            ("udp bind 127.0.0.1:49154".into(), Some(Cmd::UdpBindLo(LO + 2))),
-            ("tcp listen 127.0.0.1:49154".into(), Some(Cmd::TcpListenLo(LO + 2))),
+            ("udp bind 127.0.0.1:49153".into(), Some(Cmd::UdpBindLo(LO + 1))),
+            ("tcp listen 127.0.0.1:49153".into(), Some(Cmd::TcpListenLo(LO + 1))),
             ("crash + bounce".into(), None),
         ]
         };
